@@ -272,6 +272,8 @@ def run_faults(run, vf, prop):
     if prop == "C25":
         jobs.append(lambda: run.tlc("ClientConn", "ClientConnMC", "C25_dev_armclose.cfg", expect="violation", count=False, timeout=1500, workers=2,
                                     label="deviation demo: reconnect arm ignores Close -> Closed->Reconnecting"))
+        jobs.append(lambda: run.tlc("ClientConn", "ClientConnMC", "C25_dev_drain.cfg", expect="violation", count=False, timeout=1500, workers=2,
+                                    label="deviation demo: sechanErr drained after the last arm -> Connected on a dead channel"))
         jobs.append(lambda: run.tlc("ClientConn", "ClientConnMC", "C25_gen_noauto.cfg", mode="gen", count=False, timeout=1500,
                                     simulate=run.pick(40, 300), depth=100, label="as-is model, AutoReconnect off: fault scenarios"))
     else:
@@ -295,7 +297,7 @@ def run_faults(run, vf, prop):
     must = pick([r for r in rows if nrestart(r) >= 2 and r["script"] and not r["closed"]], 1, run.seed) + kill
     sel = must + [r for r in pick(rows, n, run.seed, key=kinds) if r not in must][:max(0, n - len(must))]
     if prop == "C25":
-        na = fault_rows(res[4].rows, run.seed, noauto=True)
+        na = fault_rows(res[5].rows, run.seed, noauto=True)
         na = [r for r in na if len(r["items"]) == 1 or r["items"][-1]["k"] == "close"]
         sel += pick(na, run.pick(2, 8), run.seed, key=kinds)
     else:
